@@ -456,7 +456,9 @@ class Kernel:
             self.resizes.append((m, recv, args))
             self.emit(("whole", recv), ("call", m, recv, args), kind="resize")
             return ("unit",)
-        if m in ("fill", "copy_from", "set_column", "set_row", "push", "extend", "insert", "clear", "append", "truncate", "remove", "retain", "swap", "sort", "dedup", "apply", "push_str", "shift_remove"):
+        if m in ("as_mut_slice", "as_slice", "as_mut", "as_mut_ptr_range") and not args:
+            return recv
+        if m in ("fill", "copy_from", "clone_from_slice", "copy_from_slice", "clone_from", "fill_with", "swap_with_slice", "rotate_left", "rotate_right", "reverse", "set_column", "set_row", "push", "extend", "insert", "clear", "append", "truncate", "remove", "retain", "swap", "sort", "dedup", "apply", "push_str", "shift_remove"):
             self.emit(("whole", recv), ("call", m, recv, args), kind="mutate")
             return ("unit",)
         if m in ("iter", "iter_mut"):
